@@ -154,10 +154,21 @@ def canary(w, k, be_mark):
     return {'ok': ok, 'own': own or not ok, 'clean': clean, 'why': why, 'secs': round(dt, 2)}
 
 
+def rss_mb(pid):
+    try:
+        with open('/proc/%d/status' % pid) as f:
+            for line in f:
+                if line.startswith('VmRSS'):
+                    return int(line.split()[1]) // 1024
+    except OSError:
+        pass
+    return 0
+
+
 def run_case(item):
     rng = random.Random(item['seed'])
     rec = {'sc': item['id'], 'steps': item['steps'], 'alive': True, 'during_ok': True, 'after_ok': True, 'after_own': True,
-           'after_clean': True, 'capacity_ok': True, 'why': '', 'cache': item.get('cache', 0)}
+           'after_clean': True, 'capacity_ok': True, 'why': '', 'cache': item.get('cache', 0), 'rss_growth_mb': 0}
     with World('hx') as w:
         be = w.backend('p0')
         pool = simple_pool([['127.0.0.1', be.port, 'primary']], pool_size=1)
@@ -181,6 +192,7 @@ def run_case(item):
             rec['why'] = 'canary failed before anything hostile: ' + pre['why']
             rec['precheck_failed'] = True
             return rec
+        rss0 = rss_mb(w.proc.pid)
         for st in item['steps']:
             phase, mal = st['phase'], st['mal']
             holds = phase in ('in_transaction', 'in_copy')
@@ -265,6 +277,10 @@ def run_case(item):
             except OSError as e:
                 sock = None
             time.sleep(0.15)
+            # what the pooler's memory does in answer to these few bytes (the sender is still connected)
+            grown = rss_mb(w.proc.pid) - rss0
+            if grown > rec.get('rss_growth_mb', 0):
+                rec['rss_growth_mb'] = grown
             if not holds:
                 d = canary(w, k, 0)
                 # a connected client may hold the only server connection by legitimate means too (BEGIN and wait), so a
@@ -371,7 +387,8 @@ def check_c11(prop, tier, seed):
         v.nontrivial_case('+'.join('%s/%s' % (s['phase'], s['mal']) for s in r['steps']))
     v.cov['evaluations'] = len(recs)
     trace = [{'sc': r['sc'], 'steps': r['steps'], 'alive': r['alive'], 'during_ok': r['during_ok'], 'after_ok': r['after_ok'],
-              'after_own': r['after_own'], 'after_clean': r['after_clean'], 'capacity_ok': r['capacity_ok'], 'why': r['why'][:300]}
+              'after_own': r['after_own'], 'after_clean': r['after_clean'], 'capacity_ok': r['capacity_ok'], 'why': r['why'][:300],
+              'rss_growth_mb': r.get('rss_growth_mb', 0)}
              for r in recs]
     res, info = tlc.validate_trace('Trace_Hostile', 'Trace_Hostile.cfg', trace, timeout=900)
     v.add_mc('trace', res)
